@@ -82,3 +82,26 @@ package isaacdatabase
 //@   prop C24
 //@   requires db != nil && db.baseLeveldb != nil
 //@   callsite Get requires a0 == leveldbBallotKey(base.NewStagePoint(point, stage), isSuffrageConfirm)
+
+// ---- C20: reopening returns what was stored (last suffrage proof) ----------------------
+//
+// The last suffrage proof is kept as (decoded proof, header bytes, body bytes);
+// the bytes are what peers are served. Loading it again from storage must fill
+// all three from one stored record.
+//@ func ReadOneHeaderFrame
+//@   trusted
+//@   pure
+//@ func DecodeFrame
+//@   trusted
+//@   modifies *v
+//@ package github.com/spikeekips/mitum/storage/leveldb
+//@ func (*PrefixStorage).Iter
+//@   trusted
+//@   loops callback(ik, ib) -> keep, ierr
+//@   until !keep || ierr != nil
+//@ package github.com/spikeekips/mitum/isaac/database
+//@ func (*LeveldbPermanent).loadLastSuffrageProof
+//@   prop C20
+//@   requires db != nil && db.basePermanent != nil && db.baseLeveldb != nil && db.proof != nil
+//@   callsite SetValue requires exists([]byte(x), unbox(a0[1], []byte) == snd(ReadOneHeaderFrame(x)) && unbox(a0[2], []byte) == third(ReadOneHeaderFrame(x)))
+//@   hof Iter#0 loop invariant proof != nil ==> exists([]byte(x), meta == snd(ReadOneHeaderFrame(x)) && body == third(ReadOneHeaderFrame(x)))
